@@ -1,6 +1,6 @@
 #!/bin/sh
 # Offline build of the whole framework from files on disk: translator, Coq development (full .vo),
-# extracted model + OCaml driver, Go harness. Idempotent.
+# Go harness. The per-property extracted drivers are built by ./check on first use. Idempotent.
 set -e
 cd "$(dirname "$0")"
 export GOFLAGS=-mod=mod GOPROXY=off GOSUMDB=off GOTOOLCHAIN=local CGO_ENABLED=0
@@ -8,7 +8,6 @@ mkdir -p build/ocaml coq/Gen evidence replays
 (cd go/gen && go build -o ../../build/gen .)
 ./build/gen "${VERIF_REPO:-/repo}" coq/Gen
 (cd coq && coq_makefile -f _CoqProject -o Makefile && timeout 7200 make -j16 >../build/coq-build.log 2>&1) || { tail -30 build/coq-build.log; exit 1; }
-(cd build/ocaml && coqc -R ../../coq Astits ../../coq/Extract/Extract.v >/dev/null && cp ../../ocaml/driver.ml . && ocamlfind ocamlopt -O3 -w -a model.mli model.ml driver.ml -o driver)
 cp "${VERIF_REPO:-/repo}/go.sum" go/harness/go.sum
 (cd go/harness && go build -tags verif -o ../../build/harness .)
 echo setup ok
